@@ -121,6 +121,151 @@ def run(ctx: Ctx):
     ctx.guarded(block_independent, ctx, "BLOCK-INDEPENDENT", "tensorly.solvers.nnls.hals_nnls", "V", ["sparsity_coefficient is not None", "ridge_coefficient is not None"])
     res.rule("ACCEPT-EVALUATED", "a line-search step that returns (model ..., error) returns the model the error was evaluated on: between the evaluation `error = f(..., model, ...)` and the return that hands both back, no part of that model is written (clipped, re-bound, stored into)", floor=1)
     ctx.guarded(accept_evaluated, ctx)
+    res.rule("DERIVED-FRESH", "in every iterative driver, a local table derived element by element from the model (G = [f(x) for x in factors], G[i] = f(factors[i]): cached Gram matrices, norms) is rebuilt as a whole (a comprehension or a loop over every position of the model list) after the model list is re-bound as a whole (factors = ..., weights, factors = cp_normalize(...)) and before it is read again: a refresh over the swept modes only leaves the entries of the other (fixed) modes describing the old factors, and the block update built from them is not the minimiser of its block problem", floor=1)
+    ctx.guarded(derived_fresh, ctx)
+
+
+_SNAPSHOTS = {"copy", "deepcopy", "clone"}  # a copy of the iterate is a snapshot (meant to stay behind), not a derived quantity
+
+_DERIVED_FRESH_WITNESS = """
+def driver(tensor, factors, weights, modes_list, n_iter_max):
+    grams = [dot(transpose(f), f) for f in factors]
+    for iteration in range(n_iter_max):
+        for mode in modes_list:
+            grams[mode] = dot(transpose(factors[mode]), factors[mode])
+        for mode in modes_list:
+            acc = 1
+            for i, gram in enumerate(grams):
+                if i != mode:
+                    acc = acc * gram
+            factors[mode] = solve(acc, mttkrp(tensor, factors, mode))
+            grams[mode] = dot(transpose(factors[mode]), factors[mode])
+        weights, factors = cp_normalize((weights, factors))
+    return weights, factors
+"""
+
+
+def _derived_tables(fnode, model):
+    """{table name: model list it is derived from} -- G = [f(x) for x in M] / G[i] = f(.. M[i] ..)"""
+    out = {}
+    for x in own_scope_nodes(fnode):
+        if not isinstance(x, ast.Assign) or len(x.targets) != 1:
+            continue
+        t, v = x.targets[0], x.value
+        if isinstance(t, ast.Name) and isinstance(v, ast.ListComp) and len(v.generators) == 1:
+            it = v.generators[0].iter
+            base = it.args[0] if isinstance(it, ast.Call) and call_name(it) == "enumerate" and it.args else it
+            if isinstance(base, ast.Name) and base.id in model and t.id not in model and isinstance(v.elt, ast.Call) and call_name(v.elt) not in _SNAPSHOTS:
+                out[t.id] = base.id
+        elif isinstance(t, ast.Subscript) and isinstance(t.value, ast.Name) and t.value.id not in model and isinstance(t.slice, ast.Name):
+            for n_ in ast.walk(v):
+                if isinstance(n_, ast.Subscript) and isinstance(n_.value, ast.Name) and n_.value.id in model and isinstance(n_.slice, ast.Name) and n_.slice.id == t.slice.id and isinstance(v, ast.Call) and call_name(v) not in _SNAPSHOTS:
+                    out.setdefault(t.value.id, n_.value.id)
+    return out
+
+
+def _covers_every_position(it, m) -> bool:
+    """the iterable of a refresh loop runs over every position of the model list m"""
+    if isinstance(it, ast.Call) and call_name(it) == "enumerate" and it.args and isinstance(it.args[0], ast.Name) and it.args[0].id == m:
+        return True
+    if isinstance(it, ast.Call) and call_name(it) == "range" and len(it.args) == 1:
+        a = it.args[0]
+        if isinstance(a, ast.Call) and call_name(a) in ("len", "ndim") :
+            return True
+        if isinstance(a, ast.Name) and a.id in ("n_modes", "n_dims", "ndim", "order", "n_factors"):
+            return True
+    return False
+
+
+def _stale_reads(fnode, model):
+    tables = _derived_tables(fnode, model)
+    found = []
+    if not tables:
+        return tables, found
+
+    def rebinds(stmt):
+        out = set()
+        if isinstance(stmt, (ast.Assign, ast.AugAssign, ast.AnnAssign)):
+            tgts = stmt.targets if isinstance(stmt, ast.Assign) else [stmt.target]
+            for t in tgts:
+                for n_ in ([t] if isinstance(t, ast.Name) else list(t.elts) if isinstance(t, (ast.Tuple, ast.List)) else []):
+                    if isinstance(n_, ast.Name):
+                        out.add(n_.id)
+                    elif isinstance(n_, (ast.Tuple, ast.List)):
+                        out |= {e.id for e in n_.elts if isinstance(e, ast.Name)}
+        return out
+
+    def reads(node, g):
+        return [n_ for n_ in ast.walk(node) if isinstance(n_, ast.Name) and n_.id == g and isinstance(n_.ctx, ast.Load)]
+
+    def walk(stmts, state):
+        for st in stmts:
+            if isinstance(st, (ast.For, ast.While)):
+                # a refresh loop over every position restores the table
+                if isinstance(st, ast.For):
+                    for g, m in tables.items():
+                        if state.get(g) and reads(st.iter, g):
+                            found.append((st, g, state[g]))
+                        stores = [x for b in st.body for x in ast.walk(b) if isinstance(x, ast.Assign) and isinstance(x.targets[0], ast.Subscript) and isinstance(x.targets[0].value, ast.Name) and x.targets[0].value.id == g]
+                        if stores and _covers_every_position(st.iter, m) and len(st.body) == len([b for b in st.body if any(x in ast.walk(b) for x in stores)]):
+                            state[g] = None
+                for _ in range(2):
+                    walk(st.body, state)
+                walk(st.orelse, state)
+            elif isinstance(st, ast.If):
+                a, b = dict(state), dict(state)
+                for g in tables:
+                    if state.get(g) and reads(st.test, g):
+                        found.append((st, g, state[g]))
+                walk(st.body, a)
+                walk(st.orelse, b)
+                for g in tables:
+                    state[g] = a.get(g) or b.get(g)
+            elif isinstance(st, (ast.With, ast.Try)):
+                walk(getattr(st, "body", []), state)
+                for h in getattr(st, "handlers", []):
+                    walk(h.body, state)
+                walk(getattr(st, "finalbody", []), state)
+            else:
+                rb = rebinds(st)
+                for g, m in tables.items():
+                    is_store = isinstance(st, ast.Assign) and isinstance(st.targets[0], ast.Subscript) and isinstance(st.targets[0].value, ast.Name) and st.targets[0].value.id == g
+                    if state.get(g) and not is_store and g not in rb and reads(st, g):
+                        found.append((st, g, state[g]))
+                    if g in rb:
+                        state[g] = None  # rebuilt as a whole
+                    elif m in rb:
+                        state[g] = st  # the model list is another object now
+        return state
+
+    walk(fnode.body, {g: None for g in tables})
+    return tables, found
+
+
+def derived_fresh(ctx: Ctx):
+    from .drivers import DRIVERS
+
+    repo, res = ctx.repo, ctx.res
+    w = ast.parse(_DERIVED_FRESH_WITNESS).body[0]
+    tabs, hits = _stale_reads(w, {"factors"})
+    if tabs != {"grams": "factors"} or not hits:
+        raise AnalysisError("DERIVED-FRESH: the built-in positive example (Gram cache refreshed over the swept modes only, factors re-bound by cp_normalize) is no longer reported; the detector is broken")
+    n_tab = 0
+    for qname, row in DRIVERS.items():
+        if not repo.has_func(qname):
+            continue
+        f = repo.func(qname)
+        model = {m for m in row.get("model", []) if m != "weights"} | set(row.get("candidates", []))
+        tabs, hits = _stale_reads(f.node, model)
+        n_tab += len(tabs)
+        res.instance("DERIVED-FRESH", f"{qname}: tables derived from the model {sorted(tabs)}", sample={"stale_reads": len(hits), "ok": not hits})
+        seen = set()
+        for st, g, why in hits:
+            if g in seen:
+                continue
+            seen.add(g)
+            ctx.finding("DERIVED-FRESH", f, st, f"{f.name}: `{g}` holds values computed element by element from `{tabs[g]}`, `{tabs[g]}` is re-bound as a whole at line {why.lineno} (`{src(why)[:60]}`), and `{src(st)[:60]}` reads `{g}` again without a rebuild over every position in between (a refresh over the swept modes leaves the entries of the fixed modes describing the old factors): the block update is computed from stale quantities and is not the exact minimiser of its block problem, so the objective can increase", construct=f"{f.name}: stale read of {g}")
+    res.instance("DERIVED-FRESH", "drivers examined (positive example recognised)", sample={"drivers": len(DRIVERS), "derived_tables": n_tab})
 
 
 def update_degree(ctx: Ctx):
